@@ -12,9 +12,9 @@
    found (checked: nothing else may appear for them); they are hazards of the existing code, several of them
    guarded by conditions the skeleton does not see. *)
 From Coq Require Import NArith List String Bool.
-From SigM Require Import LockTrace.
+From SigM Require Import LockTrace LockOrder.
 From SigG Require Import GenLocks.
-From SigP Require Import LockTraceProofs GenLocksCheck.
+From SigP Require Import LockTraceProofs LockOrderProofs GenLocksCheck.
 Import ListNotations.
 Open Scope string_scope.
 
@@ -66,3 +66,45 @@ Lemma lk_c17_functions_covered : forallb lk_covered lk_c17_functions = true.
 Proof. vm_compute. reflexivity. Qed.
 Lemma lk_c11_functions_covered : forallb lk_covered lk_c11_functions = true.
 Proof. vm_compute. reflexivity. Qed.
+
+(* ---------- lock order ----------
+   lk_order_graph: every nesting "acquire l while holding o" of every unlisted function, computed from the lock sets the
+   analysis reaches.  A ranking of the mutexes increases along every edge (checked here, on the regenerated skeletons),
+   so the order has no cycle; the only cycle of the unchanged tree, rqsLock <-> arqMapLock, is closed by RestartQuery,
+   which is a listed exception. *)
+Lemma lk_order_acyclic : acyclic lk_order_graph = true.
+Proof. vm_compute. reflexivity. Qed.
+
+Lemma fn_edges_in_graph : forall name s, In (name, s) lk_all -> allowed name lk_exceptions = [] ->
+  forall e, emem e (fn_edges lk_fuel s) = true -> emem e lk_order_graph = true.
+Proof.
+  intros name s Hin Hex e He. unfold lk_order_graph, lk_ok_fns.
+  assert (Hf : In (name, s) (filter (fun p => match allowed (fst p) lk_exceptions with [] => true | _ => false end) lk_all)).
+  { apply filter_In. split; [exact Hin|]. cbn [fst]. rewrite Hex. reflexivity. }
+  revert Hf. generalize (filter (fun p => match allowed (fst p) lk_exceptions with [] => true | _ => false end) lk_all).
+  induction l as [|q l IH]; intros Hq; [destruct Hq|].
+  cbn [fold_right]. rewrite emem_eunion. destruct Hq as [->|Hq].
+  - cbn [snd]. rewrite He. reflexivity.
+  - rewrite (IH Hq). apply orb_true_r.
+Qed.
+
+(* at every acquisition on every trace of an unlisted function, each mutex held at that moment precedes the acquired one
+   in lk_order_graph *)
+Theorem lk_acquisitions_follow_the_order : forall (name : string) (s : stm),
+  In (name, s) lk_all -> allowed name lk_exceptions = [] ->
+  forall t1 k l t2 o h, exec s (t1 ++ (k, l) :: t2) o -> is_acquire k = true -> mrun [] t1 = inl h ->
+  justified lk_order_graph (h, l).
+Proof.
+  intros name s Hin Hex t1 k l t2 o h Hx Hk Hr.
+  pose proof lk_all_checked as H. rewrite forallb_forall in H. specialize (H (name, s) Hin).
+  pose proof (fn_ok_clean (name, s) H Hex) as Hc. cbn [snd] in Hc.
+  apply (justified_mono (fn_edges lk_fuel s)); [exact (fn_edges_in_graph name s Hin Hex)|].
+  exact (acquisition_is_justified lk_fuel s Hc t1 k l t2 o h Hx Hk Hr).
+Qed.
+Print Assumptions lk_acquisitions_follow_the_order.
+
+(* hence goroutines that run unlisted functions and hold / want mutexes as their traces say cannot wait for each other in a ring *)
+Theorem lk_no_ring : forall ws : list waiter,
+  Forall (justified lk_order_graph) ws -> Forall (fun w => fst w <> []) ws -> ~ ring ws.
+Proof. exact (acyclic_no_ring lk_order_graph lk_order_acyclic). Qed.
+Print Assumptions lk_no_ring.
